@@ -54,5 +54,11 @@ func NewKeySet(keys ...Key) KeySet {
 	if len(keys) == 0 {
 		return KeySet{}
 	}
-	return KeySet{keys[0], keys[1:]}
+	head := keys[0]
+	if head == nil {
+		// A nil first key (e.g. index.String("")) is the empty key. A nil
+		// head denotes the empty set, which would drop all the keys.
+		head = Key{}
+	}
+	return KeySet{head, keys[1:]}
 }
